@@ -82,7 +82,7 @@ def run(rep, tier):
     cfgs = ["x86"] if tier == "quick" else ["x86", "x86-rayon", "arm", "wasm"]
     for cfg, prog in programs(cfgs):
         rep.set_cfg(cfg)
-        axis_rule(rep, prog, "C11.axis")
-        index_rules.nearest_index(rep, prog, "C11.index", strict=True)
-        copy_only(rep, prog, "C11.copy")
-        c07.nearest_no_alpha(rep, prog, "C11.no-alpha")
+        rep.call(axis_rule, rep, prog, "C11.axis")
+        rep.call(index_rules.nearest_index, rep, prog, "C11.index", strict=True)
+        rep.call(copy_only, rep, prog, "C11.copy")
+        rep.call(c07.nearest_no_alpha, rep, prog, "C11.no-alpha")
